@@ -22,7 +22,7 @@ typedef struct mapping_node_block_s {
 #define MAPSIZE(size) sizeof(mapping_t)
 
 struct mapping_s {
-    unsigned short ref;         /* how many times this map has been referenced */
+    unsigned int ref;           /* how many times this map has been referenced */
 #ifdef DEBUG
     int extra_ref;
 #endif
